@@ -79,6 +79,11 @@ def base_family(observer=None):
         markets=[dict(name="M0"), dict(name="M1")],
         events={"halt": {"class": "TradingHaltRule", "targetMarkets": ["M0"], "triggerChangeRate": 0.01, "haltingTimeLength": 1}},
         meta=dict(halt_targets=["M0"]))
+    # agents that run out of cash and of shares: balances go below zero (nothing in the accounting model stops at zero)
+    poor = agents(2, 1, menu_n=MENU_X, prog_n=[[3, 1, 3, 1], [4, 4, 2, 2]], prog_h=[[1, 5]])
+    for a_ in poor:
+        a_.update(cash=150, asset=1)
+    add("R_agents_overdrawn", [S(0, 2, True, False, maxNormalOrders=2), S(1, 3, True, True, maxNormalOrders=2, maxHighFrequencyOrders=1)], poor)
     # the numeric settings int-typed, as a JSON configuration written without decimal points produces them
     add("P_int_typed_config", [S(0, 2, True, False, maxNormalOrders=2, maxHighFrequencyOrders=1, highFrequencySubmitRate=1),
                                S(1, 2, True, True, maxNormalOrders=1, maxHighFrequencyOrders=1, highFrequencySubmitRate=1)],
@@ -97,5 +102,11 @@ def logger_variants(observer=None):
         s2 = copy.copy(sc[base])
         s2.name = "%s:%s_logger" % (base, "no" if kind == "none" else kind)
         s2.meta = dict(s2.meta, logger=kind)
+        out[s2.name] = s2
+    # the settings object handed to the runner has already been used by an earlier runner
+    for base in ("A_noexec_then_exec", "C_cap0_and_rate0", "L_hft_caps", "E_default_caps"):
+        s2 = copy.copy(sc[base])
+        s2.name = "%s:settings_used_before" % base
+        s2.meta = dict(s2.meta, settings_used_before=True)
         out[s2.name] = s2
     return out
